@@ -93,8 +93,10 @@ impl App {
             &krate_collection,
             &diagnostics,
         );
-        let router = Router::lift(router, component_db.user_component_id2component_id());
+        // `Router::lift` expects every request handler and fallback to have been assigned
+        // a `ComponentId`, which is not the case if any of them was rejected above.
         exit_on_errors!(diagnostics);
+        let router = Router::lift(router, component_db.user_component_id2component_id());
         let mut constructible_db = ConstructibleDb::build(
             &mut component_db,
             &mut computation_db,
